@@ -242,6 +242,74 @@ def run_feeder(aes, bf, mode, direction, padding, key, iv, ctr, chunks):
     return run_impl(go)
 
 
+class ScriptedReader(object):
+    """A file-like input stream whose read(n) returns the next scripted piece (never more than n
+    bytes: a longer piece is cut and the rest kept for the next call), like a pipe or socket that
+    delivers less than asked for before end-of-stream; b"" once everything has been delivered."""
+
+    def __init__(self, pieces):
+        self.pieces = [bytes(p) for p in pieces if p]
+
+    def read(self, n=-1):
+        if not self.pieces:
+            return b""
+        p = self.pieces.pop(0)
+        if n is not None and n >= 0 and len(p) > n:
+            self.pieces.insert(0, p[n:])
+            p = p[:n]
+        return p
+
+
+BLOCK_SIZES = [1, 7, 16, 33, 64, 8192, None]      # None: the default argument (8192)
+
+
+def short_pieces(r, data, block_size):
+    """cut data into pieces of 1..block_size bytes: mostly short reads, some full ones"""
+    bs = 8192 if block_size is None else block_size
+    out, i = [], 0
+    while i < len(data):
+        n = bs if r.random() < 0.25 else r.randrange(1, min(bs, 40) + 1)
+        out.append(data[i:i + n])
+        i += n
+    return out
+
+
+def run_stream(aes, bf, mode, direction, padding, key, iv, ctr, pieces, block_size):
+    """encrypt_stream / decrypt_stream from a short-reading input stream into a BytesIO"""
+    import io
+
+    def go():
+        mo = mk_mode(aes, mode, key, iv, ctr)
+        dst = io.BytesIO()
+        fn = bf.encrypt_stream if direction == "enc" else bf.decrypt_stream
+        if block_size is None:
+            fn(mo, ScriptedReader(pieces), dst, padding=padding)
+        else:
+            fn(mo, ScriptedReader(pieces), dst, block_size=block_size, padding=padding)
+        return dst.getvalue()
+    return run_impl(go)
+
+
+def stream_predicate(aes, bf, mode, direction, padding, key, iv, ctr, pieces, block_size):
+    """what a stream delivers in pieces must come out as the standard result for the whole stream,
+    and as what the same function returns when the stream delivers everything it is asked for"""
+    import io
+    data = b"".join(pieces)
+    want = expected_stream(mode, direction, padding, key, iv, ctr, data)
+    got = run_stream(aes, bf, mode, direction, padding, key, iv, ctr, pieces, block_size)
+    whole = run_stream(aes, bf, mode, direction, padding, key, iv, ctr,
+                       [data[i:i + 8192] for i in range(0, len(data), 8192)], 8192)
+    if want is ANY:
+        return None if sim(got, whole) else "short reads: %r, whole reads: %r" % (got, whole)
+    if want is None:
+        return None if got[0] == "err" else "accepted unusable input: %r" % (got,)
+    if got != ("ok", want):
+        return "short reads give %s, standard gives %s" % (got[1].hex() if got[0] == "ok" else got, want.hex())
+    if whole != ("ok", want):
+        return "whole reads give %r, standard gives %s" % (whole, want.hex())
+    return None
+
+
 def rbytes(r, n):
     return bytes(r.randrange(256) for _ in range(n))
 
@@ -432,6 +500,34 @@ def correspondence(ctx):
         ctx.dist["feeder-chunks:%d" % len(chunks)] += 1
     ctx.sample({"op": "Encrypter(CBC).feed x3 + feed()", "chunks": [b"ab", b"", b"c" * 20]})
 
+    # 3b. encrypt_stream / decrypt_stream from input streams that short-read (pieces of 1..block_size bytes)
+    for i in range(ctx.budget(150, 4000)):
+        mode = MODES[i % len(MODES)]
+        m, seg = mode if isinstance(mode, tuple) else (mode, None)
+        d = r.choice(["enc", "dec"])
+        padding = r.choice(["default"] * 5 + ["none"] * 4 + ["pkcs7"])
+        k, iv, ctr = rkey(r), riv(r, mode), rctr(r)
+        bs = r.choice(BLOCK_SIZES)
+        n = r.choice([r.randrange(1, 81)] * 6 + [0, 16, 32, 48, r.randrange(81, 200)])
+        if m in ("ECB", "CBC") and padding == "none" and r.random() < 0.8:
+            n = 16 * r.randrange(0, 6)
+        data = rbytes(r, n)
+        if d == "dec" and r.random() < 0.8:
+            w = run_feeder(aes, bf, mode, "enc", padding, k, iv, ctr, [data])
+            if w[0] == "ok":
+                data = w[1]
+        pieces = short_pieces(r, data, bs)
+        res = run_stream(aes, bf, mode, d, padding, k, iv, ctr, pieces, bs)
+        add("res_sim (crypt_stream E D %s %s %s %s %s %s %s) %s" % (
+            qmode(mode), qdir(d), PADS[padding], qbytes(k), qopt(iv, qbytes), qN(1 if ctr is None else ctr),
+            qlist([qbytes(c) for c in pieces], "bytes"), qr(res)),
+            ("stream", mode, d, padding, k, iv, ctr, pieces, bs))
+        ctx.case(("stream", mode, d, padding, k, iv, ctr, tuple(pieces), bs), trivial=(n == 0))
+        ctx.dist["stream:%s/%s/%s" % (m, d, padding)] += 1
+        ctx.dist["stream-block_size:%s" % bs] += 1
+        ctx.dist["stream->" + ("ok" if res[0] == "ok" else res[1])] += 1
+    ctx.sample({"op": "encrypt_stream(CBC, reader delivering 3+1+20 bytes, block_size=64)"})
+
     # 4. adapter: encrypt / decrypt / mac, both models (what the proxy does; zero-padded CBC of Model/Cbc.v)
     def adapter_case(k, iv, op, x):
         def go():
@@ -526,6 +622,12 @@ def classify(d):
             if why:
                 return ("feeder-differs-from-sp800-38a", {"mode": repr(mode), "dir": dr, "padding": padding, "key": k,
                                                           "iv": iv, "ctr": ctr, "chunks": chunks}, why)
+        if d[0] == "stream":
+            _, mode, dr, padding, k, iv, ctr, pieces, bs = d
+            why = stream_predicate(aes, bf, mode, dr, padding, k, iv, ctr, pieces, bs)
+            if why:
+                return ("stream-differs-from-sp800-38a", {"mode": repr(mode), "dir": dr, "padding": padding, "key": k,
+                                                          "iv": iv, "ctr": ctr, "pieces": pieces, "block_size": bs}, why)
         if d[0] == "adapter":
             _, op, k, iv, x = d
             why = adapter_predicate(plug, k, iv, x)
@@ -786,6 +888,37 @@ def search(ctx):
         why = adapter_predicate(plug, k, iv, x)
         if why:
             ctx.fail("adapter-not-zero-padded-cbc", {"key": k, "iv": iv, "data": x}, why)
+    # e2. encrypt_stream / decrypt_stream: input streams whose read() returns fewer bytes than asked for,
+    #     every mode / direction / padding, block_size 1, 7, 16, 33, 64, 8192 and the default
+    scombos = []
+    for mode in MODES:
+        m = mode[0] if isinstance(mode, tuple) else mode
+        for d in ("enc", "dec"):
+            for padding in (["default", "none"] if m != "CFB" else ["default"]):
+                scombos.append((mode, d, padding))
+    for (mode, d, padding) in scombos:
+        m = mode[0] if isinstance(mode, tuple) else mode
+        for bs in BLOCK_SIZES:
+            for _ in range(ctx.budget(2, 20) * (3 if esc() else 1)):
+                k, iv, ctr = rkey(r), riv(r, mode), rctr(r)
+                n = r.randrange(1, 4 * min(bs or 8192, 60) + 20)
+                if m in ("ECB", "CBC") and padding == "none":
+                    n = 16 * (n // 16 + 1)
+                data = rbytes(r, n)
+                if d == "dec":
+                    w = run_feeder(aes, bf, mode, "enc", padding, k, iv, ctr, [data])
+                    data = w[1] if w[0] == "ok" else data
+                pieces = short_pieces(r, data, bs)
+                ctx.case(("search-stream", repr(mode), d, padding, bs, k, tuple(pieces)))
+                why = stream_predicate(aes, bf, mode, d, padding, k, iv, ctr, pieces, bs)
+                if why:
+                    ctx.fail("stream-differs-from-sp800-38a",
+                             {"mode": repr(mode), "dir": d, "padding": padding, "key": k, "iv": iv, "ctr": ctr,
+                              "pieces": pieces, "block_size": bs}, why)
+                    break
+        if len(ctx.fails) > 8:
+            break
+
     # f. feeders: every split of lengths 1..L into <= 4 chunks (lengths L+1..40 sampled), all modes, both directions
     # exhaustive up to L; lengths L+1..40 get sampled splits below
     L = 18 if (ctx.quick() and not esc()) else 26 if ctx.quick() else 28
@@ -885,11 +1018,13 @@ def search(ctx):
         "key sizes (random/zero/ff/high-bit keys and blocks) + wrong key/block sizes; call histories on 1..3 interleaved "
         "mode objects (ECB, CBC, CFB-1/2/5/8/16, OFB, CTR with counters around 2^128-1) incl. wrong lengths; "
         "Encrypter/Decrypter with padding default/none/other over data lengths 0..80 cut into <= 4 chunks (possibly empty), "
-        "valid and damaged ciphertexts; adapter encrypt/decrypt/mac for every length 0..49 with none/zero/random/wrong IV and "
+        "valid and damaged ciphertexts; encrypt_stream/decrypt_stream from input streams whose read() short-reads "
+        "(pieces of 1..block_size bytes; block_size 1/7/16/33/64/8192/default); adapter encrypt/decrypt/mac for every length 0..49 with none/zero/random/wrong IV and "
         "wrong key sizes, against both the proxy model and Model/Cbc.v; histories of calls on 1..3 adapter objects; crypto.pad. "
         "search (property evaluated on the implementation against an independent definition-level AES/SP 800-38A): all 14 tables "
         "entry by entry, FIPS-197 B/C and SP 800-38A F vectors, random and single-byte-perturbed keys/blocks, inverse, every "
-        "split of lengths 1..L into <= 4 chunks for every mode/direction/padding, counter wrap, adapter = zero-padded CBC / mac / "
+        "split of lengths 1..L into <= 4 chunks for every mode/direction/padding, short-reading input streams through "
+        "encrypt_stream/decrypt_stream for every mode/direction/padding and block size, counter wrap, adapter = zero-padded CBC / mac / "
         "inverse for every length, history independence. non-trivial = non-empty data; distinct by (operation, key, iv, data, split)")
 
 
@@ -926,6 +1061,13 @@ def replay(ctx, data):
             chunks = [_b(c) for c in d["chunks"]]
             why = feeder_predicate(aes, bf, mode, d["dir"], d["padding"], _b(d["key"]), _b(d["iv"]), d["ctr"], chunks)
             print(" chunks:", [c.hex() for c in chunks], "->", why)
+            rc |= bool(why)
+        elif kind == "stream-differs-from-sp800-38a":
+            mode = eval(d["mode"], {})
+            pieces = [_b(c) for c in d["pieces"]]
+            why = stream_predicate(aes, bf, mode, d["dir"], d["padding"], _b(d["key"]), _b(d["iv"]), d["ctr"],
+                                   pieces, d["block_size"])
+            print(" reads deliver:", [c.hex() for c in pieces], "block_size", d["block_size"], "->", why)
             rc |= bool(why)
         elif kind == "adapter-not-zero-padded-cbc":
             why = adapter_predicate(plug, _b(d["key"]), _b(d["iv"]), _b(d["data"]))
